@@ -63,7 +63,7 @@ def levenshtein_distance(s: str, t: str) -> int:
                                  dist[row][col - 1] + 1,
                                  dist[row - 1][col - 1] + cost)
 
-    return dist[row][col]
+    return dist[rows - 1][cols - 1]
 
 
 class EditDistance(SequenceEdit):
